@@ -788,3 +788,281 @@ l2_harness! {
     #[kani::unwind(5)]
     fn l2_check_token_pass_log() { step_check_token_pass(true) }
 }
+
+// ==========================================================================================
+// GAP reference, shared by ClaimToken / PassToken
+// ==========================================================================================
+
+/// Next address to poll after `cur` (reference): the cyclic successor below HSA if it lies in the
+/// GAP, else the sweep is over.
+fn ref_gap_next(cur: u8, ts: u8, ns: u8, hsa: u8) -> Option<u8> {
+    let succ = if cur == hsa - 1 { 0 } else { cur + 1 };
+    if ref_in_gap(succ, ts, ns, hsa) {
+        Some(succ)
+    } else {
+        None
+    }
+}
+
+/// Is the first buffered telegram the awaited status reply from `a`?  Returns (is_reply, ready).
+fn status_reply_from(t: &STel<3>, a: u8, ts: u8) -> (bool, bool) {
+    if t.kind == 2 && t.sa == a && t.da == ts {
+        if let crate::fdl::FunctionCode::Response { state, status } = t.fc {
+            let ready = status == crate::fdl::ResponseStatus::Ok
+                && matches!(state, crate::fdl::ResponseState::MasterWithoutToken | crate::fdl::ResponseState::MasterInRing);
+            return (true, ready);
+        }
+    }
+    (false, false)
+}
+
+const IDLE_FRESH: State = State::ActiveIdle { status_request: None, new_previous_station: None, collision_count: 0 };
+
+// ==========================================================================================
+// ClaimToken
+// ==========================================================================================
+
+fn step_claim_token(log_on: bool) {
+    logging(log_on);
+    reset_ring_log();
+    let p = any_params();
+    let step = match kani::any::<u8>() {
+        0 => ClaimTokenStep::FirstToken,
+        1 => ClaimTokenStep::SecondToken,
+        2 => ClaimTokenStep::Scan,
+        _ => ClaimTokenStep::ScanAwaitResponse { address: kani::any() },
+    };
+    let mut st = any_station(p, State::ClaimToken { step }, 1);
+    kani::assume(inv_fdl(&st, 1));
+    let mut phy = Phy::any();
+    let now = any_instant();
+    let pre = snapshot(&st, &phy);
+    let (ts, hsa) = (pre.ts, pre.hsa);
+    let tel = phy.tel;
+    let n = phy.n;
+
+    st.poll(now, &mut phy, &mut ());
+
+    universal(&pre, &st, &phy, now, 1);
+    let s = sent(&phy);
+    if pre.busy(now) {
+        assert!(st.state == State::ClaimToken { step } && st.gap_state == pre.gap && ring_calls() == 0, "C01/busy: nothing changes while a transmission is in progress");
+        return;
+    }
+    // continue the scan from the given GAP state (Scan step, pause over)
+    let scan = |st: &FdlActiveStation, s: &Sent, gap: GapState, ns: u8| match gap {
+        GapState::Waiting { .. } => {
+            assert!(*s == Sent::Nothing && st.state == State::PassToken { do_gap: DoGap::No, attempt: PassTokenAttempt::First }, "C12/claim-scan: once the whole GAP was polled the new token is passed on");
+        }
+        GapState::DoPoll { current_address } => match ref_gap_next(current_address, ts, ns, hsa) {
+            Some(a) => {
+                assert!(is_status_request(s, a, ts), "C12/claim-scan: after a claim consecutive GAP addresses are polled with status requests, one after the other");
+                assert!(st.state == State::ClaimToken { step: ClaimTokenStep::ScanAwaitResponse { address: a } } && st.gap_state == GapState::DoPoll { current_address: a }, "C12/claim-scan: the scan waits for the polled station's reply");
+                kani::cover!(true, "cover: GAP address polled during the post-claim scan");
+            }
+            None => {
+                assert!(*s == Sent::Nothing && st.state == State::ClaimToken { step: ClaimTokenStep::Scan } && st.gap_state == GapState::Waiting { rotation_count: 0 }, "C12/claim-scan: the scan ends when the GAP is exhausted");
+            }
+        },
+    };
+    match step {
+        ClaimTokenStep::FirstToken | ClaimTokenStep::SecondToken => {
+            if pre.pause_over(now) {
+                assert!(s == Sent::Token { da: ts, sa: ts }, "C06/claim: the token is claimed with two token telegrams addressed to the station itself");
+                let next = if step == ClaimTokenStep::FirstToken { ClaimTokenStep::SecondToken } else { ClaimTokenStep::Scan };
+                assert!(st.state == State::ClaimToken { step: next }, "C06/claim: the claim proceeds step by step");
+                assert!(view_of(&st.token_ring).state == MLas::Valid, "C02/claim: a claiming station regards its ring view as valid");
+                assert!(st.gap_state == GapState::DoPoll { current_address: ts }, "C12/claim-scan: after a claim the whole GAP is scanned starting behind the own address");
+            } else {
+                assert!(s == Sent::Nothing && st.state == State::ClaimToken { step }, "C01/sync-pause: the claim waits for the synchronisation pause");
+            }
+            assert!(ring_calls() == 0, "C02/las: claiming reports no token pass");
+        }
+        ClaimTokenStep::Scan => {
+            if pre.pause_over(now) {
+                scan(&st, &s, pre.gap, pre.ring.ns);
+            } else {
+                assert!(s == Sent::Nothing && st.state == State::ClaimToken { step } && st.gap_state == pre.gap, "C01/sync-pause: the scan waits for the synchronisation pause");
+            }
+            assert!(ring_calls() == 0, "C02/las: polling reports nothing to the ring view");
+        }
+        ClaimTokenStep::ScanAwaitResponse { address: a } => {
+            if n >= 1 {
+                let (is_reply, ready) = status_reply_from(&tel[0], a, ts);
+                assert!(s == Sent::Nothing, "C01/role: nothing is sent in the poll that receives a telegram");
+                if is_reply {
+                    assert!(st.state == State::ClaimToken { step: ClaimTokenStep::Scan }, "C12/claim-scan: after a reply the scan continues");
+                    if ready {
+                        assert!(ring_calls() == 1 && ring_call(0) == RingCall { kind: 2, a, b: 0 }, "C12/reply-evaluation: a polled station reporting to be a ready master becomes the successor");
+                        kani::cover!(true, "cover: ready master found during the post-claim scan");
+                    } else {
+                        assert!(ring_calls() == 0, "C12/reply-evaluation: any other reply leaves the successor unchanged");
+                    }
+                } else {
+                    assert!(st.state == IDLE_FRESH, "C06/back-off: a telegram that is not the awaited reply makes the scanning station back off to idle (no second token holder lingers)");
+                    assert!(ring_calls() == 0, "C02/las: backing off reports nothing to the ring view");
+                    kani::cover!(true, "cover: foreign telegram during the post-claim scan");
+                }
+            } else if pre.slot_expired(now) {
+                // no reply within the slot time: immediately go on with the scan
+                assert!(ring_calls() == 0, "C12/reply-evaluation: silence leaves the successor unchanged");
+                scan(&st, &s, pre.gap, pre.ring.ns);
+            } else {
+                assert!(s == Sent::Nothing && st.state == State::ClaimToken { step } && ring_calls() == 0, "C12/claim-scan: the reply is awaited for one slot time");
+            }
+        }
+    }
+}
+
+l2_harness! {
+    #[kani::unwind(5)]
+    fn l2_claim_token() { step_claim_token(false) }
+}
+
+l2_harness! {
+    #[kani::unwind(5)]
+    fn l2_claim_token_log() { step_claim_token(true) }
+}
+
+// ==========================================================================================
+// PassToken
+// ==========================================================================================
+
+/// After the own token pass TS -> `ns_before`: the call is recorded, the station supervises the
+/// pass or - being alone - keeps the token.
+fn check_own_pass(st: &FdlActiveStation, s: &Sent, call_index: usize, ts: u8, ns_before: u8, attempt: PassTokenAttempt, now: Inst) {
+    assert!(*s == Sent::Token { da: ns_before, sa: ts }, "C11/pass: the token is passed to the successor");
+    assert!(ring_calls() == call_index + 1 && ring_call(call_index) == RingCall { kind: 1, a: ts, b: ns_before }, "C02/las: the own token pass is recorded in the ring view");
+    if ring_post(call_index).ns == ts {
+        assert!(st.state == State::UseToken { data: UseTokenData { token_time: now, first_app: None }, first_cycle_done: false }, "C11/alone: a station that is alone keeps the token");
+    } else {
+        assert!(st.state == State::CheckTokenPass { attempt }, "C11/supervise: after passing the token the station supervises the bus");
+    }
+}
+
+fn step_pass_token(log_on: bool) {
+    logging(log_on);
+    reset_ring_log();
+    let p = any_params();
+    let do_gap = if kani::any() { DoGap::Yes } else { DoGap::No };
+    let attempt = any_attempt();
+    let mut st = any_station(p, State::PassToken { do_gap, attempt }, 1);
+    kani::assume(inv_fdl(&st, 1));
+    let mut phy = Phy::any();
+    let now = any_instant();
+    let pre = snapshot(&st, &phy);
+    let (ts, hsa) = (pre.ts, pre.hsa);
+
+    st.poll(now, &mut phy, &mut ());
+
+    universal(&pre, &st, &phy, now, 1);
+    let s = sent(&phy);
+    if pre.busy(now) || !pre.pause_over(now) {
+        assert!(s == Sent::Nothing && st.state == State::PassToken { do_gap, attempt } && st.gap_state == pre.gap && ring_calls() == 0, "C01/sync-pause: the pass waits for the end of the transmission and the synchronisation pause");
+        return;
+    }
+    assert!(phy.rx_calls <= 1, "C01/role: a passing station does not read telegrams");
+    if do_gap == DoGap::Yes {
+        let want_gap = match pre.gap {
+            GapState::Waiting { rotation_count } => {
+                if rotation_count > pre.gap_wait {
+                    match ref_gap_next(ts, ts, pre.ring.ns, hsa) {
+                        Some(a) => GapState::DoPoll { current_address: a },
+                        None => GapState::Waiting { rotation_count: 0 },
+                    }
+                } else {
+                    GapState::Waiting { rotation_count: rotation_count + 1 }
+                }
+            }
+            GapState::DoPoll { current_address } => match ref_gap_next(current_address, ts, pre.ring.ns, hsa) {
+                Some(a) => GapState::DoPoll { current_address: a },
+                None => GapState::Waiting { rotation_count: 0 },
+            },
+        };
+        assert!(st.gap_state == want_gap, "C12/gap-sweep: per token visit the sweep advances by one address, then pauses for the configured number of rotations and restarts behind the own address");
+        if let GapState::DoPoll { current_address: a } = want_gap {
+            assert!(is_status_request(&s, a, ts), "C12/gap-poll: the GAP address is polled with an FDL status request from this station");
+            assert!(ref_in_gap(a, ts, pre.ring.ns, hsa), "C12/gap-range: a polled address lies strictly between this station and its successor (cyclically)");
+            assert!(st.state == State::AwaitStatusResponse { address: a }, "C12/one-poll-per-visit: after the poll the station awaits the reply and then passes the token");
+            assert!(ring_calls() == 0, "C02/las: polling reports nothing to the ring view");
+            kani::cover!(matches!(pre.gap, GapState::Waiting { .. }), "cover: new sweep starts after the waiting period");
+            kani::cover!(a == 0 && ts > 0, "cover: sweep wraps around below TS");
+            return;
+        }
+    } else {
+        assert!(st.gap_state == pre.gap, "C12/one-poll-per-visit: no GAP activity when the visit's poll is already done");
+    }
+    check_own_pass(&st, &s, 0, ts, pre.ring.ns, attempt, now);
+    kani::cover!(pre.ring.ns == ts, "cover: token passed to self when alone");
+}
+
+l2_harness! {
+    #[kani::unwind(5)]
+    fn l2_pass_token() { step_pass_token(false) }
+}
+
+l2_harness! {
+    #[kani::unwind(5)]
+    fn l2_pass_token_log() { step_pass_token(true) }
+}
+
+// ==========================================================================================
+// AwaitStatusResponse
+// ==========================================================================================
+
+fn step_await_status_response(log_on: bool) {
+    logging(log_on);
+    reset_ring_log();
+    let p = any_params();
+    let a: u8 = kani::any();
+    let mut st = any_station(p, State::AwaitStatusResponse { address: a }, 1);
+    kani::assume(inv_fdl(&st, 1));
+    let mut phy = Phy::any();
+    let now = any_instant();
+    let pre = snapshot(&st, &phy);
+    let ts = pre.ts;
+    let tel = phy.tel;
+    let n = phy.n;
+
+    st.poll(now, &mut phy, &mut ());
+
+    universal(&pre, &st, &phy, now, 1);
+    let s = sent(&phy);
+    assert!(st.gap_state == pre.gap, "C12/gap-sweep: awaiting the reply does not move the sweep");
+    if pre.busy(now) {
+        assert!(st.state == State::AwaitStatusResponse { address: a } && ring_calls() == 0, "C01/busy: nothing changes while a transmission is in progress");
+        return;
+    }
+    if n >= 1 {
+        let (is_reply, ready) = status_reply_from(&tel[0], a, ts);
+        assert!(s == Sent::Nothing, "C01/role: nothing is sent in the poll that receives a telegram");
+        if is_reply {
+            assert!(st.state == State::PassToken { do_gap: DoGap::No, attempt: PassTokenAttempt::First }, "C12/one-poll-per-visit: after the reply the token is passed on without another poll");
+            if ready {
+                assert!(ring_calls() == 1 && ring_call(0) == RingCall { kind: 2, a, b: 0 }, "C12/reply-evaluation: a polled station reporting to be a ready master becomes the successor");
+                kani::cover!(true, "cover: ready master becomes the successor");
+            } else {
+                assert!(ring_calls() == 0, "C12/reply-evaluation: any other reply leaves the successor unchanged");
+                kani::cover!(true, "cover: reply from a slave or not-ready master");
+            }
+        } else {
+            assert!(st.state == IDLE_FRESH && ring_calls() == 0, "C06/back-off: a telegram that is not the awaited reply makes the station back off to idle (no second token holder lingers)");
+            kani::cover!(tel[0].is_token(), "cover: token heard while awaiting a status reply");
+        }
+    } else if pre.slot_expired(now) {
+        // silence: pass the token right away
+        check_own_pass(&st, &s, 0, ts, pre.ring.ns, PassTokenAttempt::First, now);
+    } else {
+        assert!(s == Sent::Nothing && st.state == State::AwaitStatusResponse { address: a } && ring_calls() == 0, "C12/gap-poll: the reply is awaited for one slot time");
+    }
+}
+
+l2_harness! {
+    #[kani::unwind(5)]
+    fn l2_await_status_response() { step_await_status_response(false) }
+}
+
+l2_harness! {
+    #[kani::unwind(5)]
+    fn l2_await_status_response_log() { step_await_status_response(true) }
+}
